@@ -158,3 +158,52 @@ def state_pairing(model, rep, rule, rels):
                   line=fi.node.lineno,
                   witness='a dict comprehension followed by ordinary assignments')
   return n
+
+
+def cursor_scoped(model, rep, rule, rel, cname, mname='visit'):
+  """A visitor's `visit` override that moves a cursor attribute (`self.X = ...`)
+  before it dispatches to the children must put the old value back after the
+  dispatch on every path: the cursor is scoped to the subtree, siblings visited
+  afterwards must see the parent's value again."""
+  cls = model.cls(rel, cname)
+  fi = cls.methods.get(mname)
+  if fi is None:
+    raise core.AnalysisError('%s.%s not found' % (cname, mname))
+  g = pycfg.CFG(fi.node)
+  disp = [i for i in range(len(g.nodes)) if any(
+      isinstance(c.func, ast.Attribute) and c.func.attr in ('visit', 'generic_visit') and
+      isinstance(c.func.value, ast.Call) and core.dotted(c.func.value.func) == 'super'
+      for c in pycfg.calls_at(g, i))]
+  if len(disp) != 1:
+    raise core.AnalysisError('%s.%s: dispatch to the base visitor not found' % (cname, mname))
+  d = disp[0]
+  moved = {}
+  for i, (k, a) in enumerate(g.nodes):
+    if isinstance(a, ast.Assign) and len(a.targets) == 1 and isinstance(
+        a.targets[0], ast.Attribute) and core.norm(a.targets[0].value) == 'self' and \
+        d in g.reachable(i) and i not in g.reachable(d):
+      moved.setdefault(a.targets[0].attr, []).append(i)
+  n = 0
+  dom = g.dominators()
+  for attr, sets in sorted(moved.items()):
+    n += 1
+    saves = [(i, a.targets[0].id) for i, (k, a) in enumerate(g.nodes)
+             if isinstance(a, ast.Assign) and len(a.targets) == 1 and isinstance(
+                 a.targets[0], ast.Name) and core.norm(a.value) == 'self.' + attr and
+             all(i in dom.get(s, ()) and i != s for s in sets)]
+    ok = bool(saves)
+    if ok:
+      names = {nm for _, nm in saves}
+      w = {i: 1 for i, (k, a) in enumerate(g.nodes) if isinstance(a, ast.Assign) and
+           len(a.targets) == 1 and core.norm(a.targets[0]) == 'self.' + attr and
+           isinstance(a.value, ast.Name) and a.value.id in names}
+      rng = g.count_range(w, start=d, skip_labels=('exc',))
+      ok = rng is not None and rng[0] >= 1
+    rep.check(ok, rule, '%s:%s:%s:restores(%s)' % (rel, cname, mname, attr),
+              '%s.%s sets self.%s for the subtree it is about to visit and does '
+              'not put the previous value back afterwards on every path: what is '
+              'visited next (the rest of the enclosing expression, the following '
+              'siblings) is handled with the wrong %s' % (cname, mname, attr, attr),
+              line=fi.node.lineno,
+              witness='while any(map(lambda t: t > 0, pending)): pending = ...')
+  return n
